@@ -9,6 +9,7 @@ import Micm.Model.RateConst
 import Micm.Model.FlatKernels
 import Micm.Model.History
 import Micm.Model.FlatKernels2
+import Micm.Model.FlatKernels3
 namespace Micm.Driver
 open Micm
 
@@ -552,24 +553,45 @@ def jacobianFlatCase : P String := do
       let J := t.subtractJacobianFlat flat L ncell nrx ns p.nnz (toFlatDense L ncell nrx k) (toFlatDense L ncell ns y) J0
       pure s!"jacobianflat J={showFs J.toList}"
 
-/-- flat-storage Doolittle factorisation and solve (whole `AsVector()` of L, U and x) -/
+/-- flat-storage factorisation and solve for all four variants (whole `AsVector()` of L, U / the in-place matrix, and x) -/
 def luFlatCase : P String := do
+  let kind := luKindOf (← nat)
   let n ← nat; let csc ← boolT; let L ← nat; let blocks ← nat; let ne ← nat
   let es ← pairsP ne
   let set := setOfList es
   let jac := Pattern.mk' n csc L set
-  let la := LinAlg.build .doolittle jac
+  let la := LinAlg.build kind jac
   let avals ← flts (blocks * set.length)
   let garbage ← flt
   let b ← flts (blocks * n)
+  -- A values placed on the pattern of `la.A` (for in-place variants the ALU pattern; fill-in slots hold 0)
   let A : Array Float := ((List.range blocks).flatMap fun bl => (set.zipIdx).map fun ei =>
-      (jac.slot bl (jac.rk ei.1.1 ei.1.2), avals.getD (bl * set.length + ei.2) 0.0)).foldl
-    (fun a p => wr a p.1 p.2) (Array.replicate (jac.vectorSize blocks) 0.0)
-  let L0 : Array Float := Array.replicate (la.Lp.vectorSize blocks) garbage
-  let U0 : Array Float := Array.replicate (la.Up.vectorSize blocks) garbage
-  let (Lo, Up) := doolittleFlat L blocks la.dRows jac.nnz la.Lp.nnz la.Up.nnz A (L0, U0)
-  let x := solveFlat L blocks n la.fw la.bw la.Lp.nnz la.Up.nnz Lo Up (toFlatDense L blocks n b)
-  pure s!"luflat L={showFs Lo.toList} U={showFs Up.toList} x={showFs x.toList}"
+      (la.A.slot bl (la.A.rk ei.1.1 ei.1.2), avals.getD (bl * set.length + ei.2) 0.0)).foldl
+    (fun a p => wr a p.1 p.2) (Array.replicate (la.A.vectorSize blocks) 0.0)
+  let xb := toFlatDense L blocks n b
+  match kind with
+  | .doolittle | .mozart =>
+    let L0 : Array Float := Array.replicate (la.Lp.vectorSize blocks) garbage
+    let U0 : Array Float := Array.replicate (la.Up.vectorSize blocks) garbage
+    let (Lo, Up) := if kind == .doolittle then doolittleFlat L blocks la.dRows jac.nnz la.Lp.nnz la.Up.nnz A (L0, U0)
+                    else mozartFlat L blocks la.mInit la.mRows jac.nnz la.Lp.nnz la.Up.nnz A (L0, U0)
+    let x := solveFlat L blocks n la.fw la.bw la.Lp.nnz la.Up.nnz Lo Up xb
+    pure s!"luflat L={showFs Lo.toList} U={showFs Up.toList} x={showFs x.toList}"
+  | _ =>
+    let M := if kind == .doolittleInPlace then doolittleInPlaceFlat L blocks la.diRows la.A.nnz A
+             else mozartInPlaceFlat L blocks la.miRows la.A.nnz A
+    let x := solveInPlaceFlat L blocks n la.fw la.bw la.A.nnz M xb
+    pure s!"luflat L={showFs M.toList} U= x={showFs x.toList}"
+
+/-- `AlphaMinusJacobian` on index-coded flat storage -/
+def alphaFlatCase : P String := do
+  let n ← nat; let csc ← boolT; let L ← nat; let blocks ← nat; let ne ← nat
+  let es ← pairsP ne
+  let p := Pattern.mk' n csc L (setOfList es)
+  let alpha ← flt
+  let J0 : Array Float := (Array.range (p.vectorSize blocks)).map Nat.toFloat
+  let J := alphaMinusJacobianFlat L blocks p.nnz p.diagRanks J0 alpha
+  pure s!"alphaflat J={showFs J.toList}"
 
 /-- separate-L/U variants with L and U stored in their own (possibly different) orders -/
 def LinAlg.buildMixed (kind : LUKind) (jac : Pattern) (cscL cscU : Bool) : LinAlg :=
@@ -617,8 +639,10 @@ def normCase : P String := do
   let small ← flt
   let Y := matOf ncell ns y; let Yn := matOf ncell ns yn; let E := matOf ncell ns er
   let e := normalizedError floatOps floatConsts L ns atol.toArray rtol Y Yn E
+  -- the same through the flat-storage model of the two C++ overloads
+  let ef := normFlat floatOps floatConsts L ncell ns atol.toArray rtol (toFlatDense L ncell ns y) (toFlatDense L ncell ns yn) (toFlatDense L ncell ns er)
   let conv := beIsConverged floatOps small atol.toArray rtol E Yn
-  pure s!"norm e={showF e} conv={if conv then 1 else 0}"
+  pure s!"norm e={showF e} ef={showF ef} conv={if conv then 1 else 0}"
 
 def runLine2 (line : String) : String :=
   let toks := (line.trimAscii.toString.splitOn " ").filter (· != "")
@@ -635,6 +659,7 @@ def runLine2 (line : String) : String :=
     | "jacobianflat" => (jacobianFlatCase.run rest).1
     | "luflat" => (luFlatCase.run rest).1
     | "lumix" => (luMixCase.run rest).1
+    | "alphaflat" => (alphaFlatCase.run rest).1
     | _ => runLine line
 
 end Micm.Driver
